@@ -12,7 +12,7 @@ using namespace vh;
 
 int64_t vh_case_count(const std::string &tier, uint64_t)
 {
-    return tier == "thorough" ? 30000 : 2500;
+    return tier == "thorough" ? 200000 : 20000;
 }
 
 // ---- hook monitor (single-threaded; state is reset per AnalyserModel under test) ----
